@@ -16,6 +16,11 @@
 (*                             state came back; state = its Bytes()        *)
 (*   Indep {src, key, ok, state}     ticket src opened with                *)
 (*                             TicketKeyFromBytes(key).AesKey/.HmacKey only*)
+(*   Recheck {d, state}        Bytes() NOW of the state object the d-th     *)
+(*                             successful DecryptTicket returned (kept by   *)
+(*                             the harness, never copied)                   *)
+(*   Reread {src, raw}         the bytes NOW of the slice EncryptTicket     *)
+(*                             returned for ticket src (Encrypt logs raw)   *)
 (*   Forge {p, o}              a forged ClientSessionState offered to a    *)
 (*                             server (p: supplied, o: observed)           *)
 (*   Secret {secvia, supplied, got}  the bytes MasterSecret() returned for *)
@@ -35,7 +40,7 @@ Step == l' = l + 1 /\ UNCHANGED <<base, id, bad>>
 Is(k) == l <= N /\ ~bad /\ Ev.ev = k
 
 TReset == /\ l <= N /\ Ev.ev = "Reset"
-          /\ explicit' = <<>> /\ auto' = <<>> /\ nauto' = 0 /\ now' = 0 /\ tix' = <<>>
+          /\ explicit' = <<>> /\ auto' = <<>> /\ nauto' = 0 /\ now' = 0 /\ tix' = <<>> /\ held' = <<>>
           /\ l' = l + 1 /\ base' = l /\ id' = Ev.id /\ bad' = FALSE
 
 ObsRes == [ok |-> Ev.ok, st |-> Ev.state]
@@ -43,12 +48,14 @@ NewTicket == Ev.t = Len(tix) + 1 /\ Len(tix') = Ev.t /\ tix'[Ev.t].len = Ev.len
 
 DoSetKeys == SetKeys(Ev.keys)
 DoAdvance == Advance(Ev.h)
-DoEncrypt == Ev.err = "" /\ Ev.len > 0 /\ Len(Ev.state) > 0 /\ Encrypt(Ev.state, Ev.len) /\ NewTicket
+DoEncrypt == Ev.err = "" /\ Ev.len > 0 /\ Len(Ev.state) > 0 /\ Len(Ev.raw) = Ev.len /\ Encrypt(Ev.state, Ev.len, Ev.raw) /\ NewTicket
 DoFlip == Flip(Ev.src, Ev.bit) /\ NewTicket
 DoTruncate == Truncate(Ev.src, Ev.len) /\ NewTicket
 DoExtend == Ev.src \in 1..Len(tix) /\ Extend(Ev.src, Ev.len - tix[Ev.src].len) /\ NewTicket
 DoDecrypt == Ev.err = "" /\ Decrypt(Ev.src, ObsRes)
 DoIndep == Indep(Ev.src, Ev.key, ObsRes)
+DoRecheck == Recheck(Ev.d, Ev.state)
+DoReread == Reread(Ev.src, Ev.raw)
 DoForge == ForgeOutcome(Ev.p, Ev.o) /\ UNCHANGED tkVars
 DoSecret == SecretKept(Ev.supplied, Ev.got) /\ UNCHANGED tkVars
 
@@ -65,6 +72,8 @@ TDecryptKeyGone == Is("Decrypt") /\ SrcOk /\ Intact(tix[Ev.src]) /\ ~Opens(tix[E
 TDecryptModified == Is("Decrypt") /\ SrcOk /\ ~Intact(tix[Ev.src]) /\ DoDecrypt /\ Step
 TIndepOpens == Is("Indep") /\ SrcOk /\ Opens(tix[Ev.src], <<Ev.key>>) /\ DoIndep /\ Step
 TIndepRefuses == Is("Indep") /\ SrcOk /\ ~Opens(tix[Ev.src], <<Ev.key>>) /\ DoIndep /\ Step
+TRecheck == Is("Recheck") /\ DoRecheck /\ Step
+TReread == Is("Reread") /\ DoReread /\ Step
 TForgeResumed == Is("Forge") /\ Ev.o.cresumed /\ Ev.p.vers # TLS13 /\ DoForge /\ Step
 TForgeNotResumed == Is("Forge") /\ ~Ev.o.cresumed /\ DoForge /\ Step
 TForgeResumed13 == Is("Forge") /\ Ev.o.cresumed /\ Ev.p.vers = TLS13 /\ DoForge /\ Step
@@ -78,6 +87,8 @@ Explained == \/ Ev.ev = "SetKeys" /\ ENABLED DoSetKeys
              \/ Ev.ev = "Extend" /\ ENABLED DoExtend
              \/ Ev.ev = "Decrypt" /\ ENABLED DoDecrypt
              \/ Ev.ev = "Indep" /\ ENABLED DoIndep
+             \/ Ev.ev = "Recheck" /\ ENABLED DoRecheck
+             \/ Ev.ev = "Reread" /\ ENABLED DoReread
              \/ Ev.ev = "Forge" /\ ENABLED DoForge
              \/ Ev.ev = "Secret" /\ ENABLED DoSecret
 \* what the model says about the event (diagnostics only)
@@ -88,19 +99,24 @@ Why == IF Ev.ev \in {"Decrypt", "Indep"} /\ SrcOk
              sameState |-> (Ev.state = t.st), implok |-> Ev.ok]
        ELSE IF Ev.ev = "Forge"
        THEN [accepted |-> TicketAccepted(Ev.p), carries |-> ResumedCarriesSupplied(Ev.p, Ev.o), completed |-> Completed(Ev.o), resumed |-> Ev.o.cresumed]
+       ELSE IF Ev.ev = "Recheck"
+       THEN [d |-> Ev.d, known |-> (Ev.d \in 1..Len(held)),
+             becameOther |-> (\E i \in 1..Len(tix) : tix[i].sealed /\ tix[i].st = Ev.state), nowlen |-> Len(Ev.state)]
+       ELSE IF Ev.ev = "Reread"
+       THEN [src |-> Ev.src, nowlen |-> Len(Ev.raw)]
        ELSE IF Ev.ev = "Secret"
        THEN [suppliedlen |-> Len(Ev.supplied), gotlen |-> Len(Ev.got), secvia |-> Ev.secvia]
        ELSE [unexplained |-> Ev.ev]
 TFail == /\ l <= N /\ ~bad /\ Ev.ev # "Reset" /\ ~Explained
          /\ PrintT(<<"REJ", ToJson([id |-> id, at |-> l - base, kind |-> Ev.ev, why |-> Why])>>)
          /\ bad' = TRUE /\ l' = l + 1 /\ UNCHANGED <<base, id>>
-         /\ explicit' = <<>> /\ auto' = <<>> /\ nauto' = 0 /\ now' = 0 /\ tix' = <<>>
+         /\ explicit' = <<>> /\ auto' = <<>> /\ nauto' = 0 /\ now' = 0 /\ tix' = <<>> /\ held' = <<>>
 TSkip == /\ l <= N /\ bad /\ Ev.ev # "Reset"
          /\ l' = l + 1 /\ UNCHANGED <<base, id, bad>> /\ UNCHANGED tkVars
 
 Next == TReset \/ TSetKeys \/ TAdvance \/ TEncrypt \/ TFlip \/ TTruncate \/ TExtend
         \/ TDecryptOpens \/ TDecryptKeyGone \/ TDecryptModified \/ TIndepOpens \/ TIndepRefuses
-        \/ TForgeResumed \/ TForgeResumed13 \/ TForgeNotResumed \/ TSecret \/ TFail \/ TSkip
+        \/ TRecheck \/ TReread \/ TForgeResumed \/ TForgeResumed13 \/ TForgeNotResumed \/ TSecret \/ TFail \/ TSkip
 
 AtEnd == l = N + 1 \/ (l <= N /\ Ev.ev = "Reset")
 Report == /\ (AtEnd /\ l > 1 /\ ~bad) => PrintT(<<"OK", id>>)
